@@ -25,7 +25,7 @@ ORDER = ["side_partial_cmp", "ub_partial_cmp", "ub_matches", "ub_try_into_range"
          "ubl_bounds_only", "ubl_is_sortable", "ubl_is_sorted", "ubl_has_negative_indices", "ubl_is_forward_only",
          "fast_try_from", "stream_try_from", "side_from_str", "ub_from_str",
          "ubl_unpack", "ubl_complement", "cut_bytes", "fast_output_parts", "fast_cut_record",
-         "fill_fields", "compress_delimiter"]
+         "fill_fields", "compress_delimiter", "trim"]
 DEPS = {"ub_partial_cmp": ["side_partial_cmp"], "ub_from_range": ["ub_new"], "ub_unpack": ["ub_new", "ub_try_into_range"],
         "ub_complement": ["ub_try_into_range", "complement_std_range", "ub_from_range", "ub_new"],
         "ubl_is_sortable": ["ubl_bounds_only"], "ubl_is_sorted": ["ubl_bounds_only", "ub_partial_cmp", "side_partial_cmp"],
@@ -66,6 +66,7 @@ USES = {
     "fast_cut_record": ["C01", "C02", "C10"],
     "fill_fields": ["C01", "C10"],
     "compress_delimiter": ["C01", "C10"],
+    "trim": ["C01", "C12"],
 }
 LEMMA = {n: "tie_" + n for n in ORDER}
 
